@@ -233,15 +233,20 @@ func (llb *Buffer) WriteTo(w io.Writer) (n int64, err error) {
 			panic("Buffer.WriteTo: invalid Write count")
 		}
 		n += int64(m)
+		if m < b.len() {
+			// Keep the unwritten rest of the node, whether the writer
+			// failed or just wrote short.
+			b.buf = b.buf[m:]
+			llb.pushFront(b)
+			if err == nil {
+				err = io.ErrShortWrite
+			}
+			return
+		}
+		bsPool.Put(b.buf)
 		if err != nil {
 			return
 		}
-		if m < b.len() {
-			b.buf = b.buf[m:]
-			llb.pushFront(b)
-			return n, io.ErrShortWrite
-		}
-		bsPool.Put(b.buf)
 	}
 	return
 }
